@@ -17,9 +17,9 @@ def measured(n):
     return size  # TP:measured
 '''
 
-EXPR = {'numeric': 'size + RATE', 'numeric_text': 'text', 'bool': 'size > 1', 'non_numeric': '"abc"',
+EXPR = {'zero': 'size - size', 'numeric': 'size + RATE', 'numeric_text': 'text', 'bool': 'size > 1', 'non_numeric': '"abc"',
         'raises': 'size // 0'}
-EXPR_VALUE = {'numeric': 18.0, 'numeric_text': 3.5, 'bool': 1.0, 'one': 1}
+EXPR_VALUE = {'zero': 0.0, 'numeric': 18.0, 'numeric_text': 3.5, 'bool': 1.0, 'one': 1}
 LABEL_EXPR = {'expr_ok': 'size * 3', 'expr_raises': 'missing_name + 1'}
 
 
@@ -144,7 +144,9 @@ def run(c):
     c.mc('MetricDispatch', mc_cfg(d=1, l=2, p=2, rich=True), label='1 definition, full grid',
          must_cover=['AddDef', 'AddLabel', 'Hit2'])
     c.mc('MetricDispatch', mc_cfg(d=2, l=1, p=2, rich=False), label='2 definitions, reduced grid')
-    sim = tlc.simulate('MetricDispatch', mc_cfg(d=2, l=2, p=2, rich=True), num=150 if quick else 5000, depth=10,
+    if not quick:
+        c.mc('MetricDispatch', mc_cfg(d=2, l=1, p=2, rich=True), label='2 definitions, full grid', timeout=3000)
+    sim = tlc.simulate('MetricDispatch', mc_cfg(d=2, l=2, p=2, rich=True), num=150 if quick else 40000, depth=10,
                        seed=c.seed + 6)
     c.transitions += sim.generated
     host = R.write_host(wd, HOST)
